@@ -221,10 +221,12 @@ Definition complete_body (F : faults) (attr : bool) (names : list nm) (s : state
   bind (visit F SScopeStack s) (fun s _ =>
   bind (visit F SDbLoad s) (fun s _ =>
   if attr then
-    (* auto_eval(pname, ...) builds a PythonBlock of the parent expression (parse), auto-imports, evaluates *)
-    match bind (visit F SParse s) (fun s _ => auto_import_body F names s) with
-    | Ret s' _ => Ret s' ViaPyflyby
-    | Raise s' e => if is_Exception e then Ret s' ViaPyflyby else Raise s' e
+    (* auto_eval(pname, ...) builds a PythonBlock of the parent expression (parse), auto-imports, evaluates
+       (auto_eval passes no `autoimported` dictionary: the importer's per-cell record is not written) *)
+    let a0 := attempted s in
+    match bind (visit F SParse s) (fun s _ => auto_import_body F names (set_attempted [] s)) with
+    | Ret s' _ => Ret (set_attempted a0 s') ViaPyflyby
+    | Raise s' e => if is_Exception e then Ret (set_attempted a0 s') ViaPyflyby else Raise (set_attempted a0 s') e
     end
   else Ret s ViaPyflyby))).
 
